@@ -1,4 +1,5 @@
-import Qv.Proofs.ReduceSpin
+import Qv.Proofs.ReduceLabels
+import Qv.Props.C14
 /-!
 # C01 — Degree reduction never undercuts the model and is exact on consistent ancillas
 
@@ -12,8 +13,10 @@ reductions `((x, y), z)` and `st.next` the next free label.  The theorems hold f
 certificate — whatever pairs were chosen — with no bound on the number of variables, terms, degree or steps.
 The tie to `/repo`: on every run `harness/c01.py` replays the certificate recorded by the hook in
 `PUBO._reduce_degree` through this checker and compares `st.D` with the returned matrix exactly; the
-implementation model `Qv.Reduce.reduceDegree` is compared exactly as well and its own certificate is checked
-by `replay` on every case.
+implementation model `Qv.Reduce.reduceDegreeC` is compared exactly as well; that its own certificate is accepted
+by `replay` is T1.0 (`impl_refines_spec`, for all inputs) and is also re-checked at run time on every case.
+The original-label forms (`original_extension`, `original_never_undercuts`, `history_default_reduction`) use
+C14's bookkeeping invariant (`Qv.C14.inv_history`) and C04's model of `convert_solution`.
 -/
 namespace Qv.C01
 open Qv Qv.Reduce
@@ -124,21 +127,153 @@ theorem degree_and_labels (h : replay n deg terms certs = .ok st) :
 `M`'s value at the assignment `convert_solution(s) = (label ↦ s[mapping[label]])`.  Together with T1.4 this
 is the property's second clause in `M`'s own labels:
 `D(s) ≥ M(convert_solution(s))` for every boolean `s`. -/
-theorem never_undercuts_original {m : Mapping} {items : Poly} {f : Freq}
-    (hm : mapSelf m items [] [] = .ok (terms, f)) (h : replay n deg terms certs = .ok st)
+theorem never_undercuts_original {m : Reduce.Mapping} {items : Poly} {f : Freq}
+    (hm : Reduce.mapSelf m items [] [] = .ok (terms, f)) (h : replay n deg terms certs = .ok st)
     (hl : ∀ c ∈ certs, c.steps ≠ [] → |c.v| ≤ c.lam) (s : Var → Rat) (hs : IsBool s) :
-    eval (fun i => s (mfun m i)) items ≤ eval s st.D := by
+    eval (fun i => s (Reduce.mfun m i)) items ≤ eval s st.D := by
   have := never_undercuts h hl s s hs (fun _ _ => rfl)
-  rwa [eval_mapSelf s hm, eval_nil, zero_add] at this
+  rwa [Reduce.eval_mapSelf s hm, eval_nil, zero_add] at this
 
 /-- the implementation model's certificate carries the penalty `lam(v)`; with `lam = None` (the default
 `1 + |v|`) every step is admissible, so T1.4/T1.5 apply to every default reduction -/
-theorem impl_default_admissible {items : Poly} {m : Mapping} {d : Option Nat} {pairs : List Key} {o : Out}
-    (h : reduceDegree items m n d .default pairs = .ok o) :
+theorem impl_default_admissible {items : Poly} {m : Reduce.Mapping} {cdeg : Nat} {d : Option Nat} {pairs : List Key}
+    {o : Out} (h : reduceDegreeC items m n cdeg d .default pairs = .ok o) :
     ∀ c ∈ o.certs, c.steps ≠ [] → |c.v| ≤ c.lam := by
   intro c hc _
-  rw [reduceDegree_lam h c hc]
+  rw [reduceDegreeC_lam h c hc]
   exact defaultLam_ge c.v
+
+/-! ### T1.0 — the implementation model refines the specification -/
+
+/-- **T1.0 (`impl` refines `Spec`).**  The certificate that the implementation model `reduceDegreeC` (the
+deterministic algorithm of `PUBO._reduce_degree`, with the pair heuristic, reuse, frequency bumps and sorted
+re-insertion) emits is accepted by the specification checker, and the checker recomputes exactly the model's
+`D` and next free label — for every model with duplicate-free keys whose `mapping` is injective with images
+below `n`, and whose cached `degree` (read for `deg = None`) bounds the key lengths (all three hold in every
+bookkeeping state the repaired code can reach: `history_bookOK`).  Behind it: along the reduction of a term the
+key stays strictly sorted with labels below `next`, and no two distinct labels of the key have a common
+descendant in the forest of reductions, so a reused ancilla is never already in the key, every scanned pair
+consists of two distinct labels of the key, and every step shortens the key by one.  Hence T1.1–T1.7 hold of
+the implementation model's own output, with no run-time check involved. -/
+theorem impl_refines_spec {items : Poly} {m : Reduce.Mapping} {cdeg : Nat} {d : Option Nat} {lam : Lam}
+    {pairs : List Key} {o : Out} (h : reduceDegreeC items m n cdeg d lam pairs = .ok o)
+    (hkeys : ∀ kv ∈ items, kv.1.Nodup)
+    (hlt : ∀ i j, Reduce.lookup m i = some j → (j : Nat) < n)
+    (hinj : ∀ i i' j, Reduce.lookup m i = some j → Reduce.lookup m i' = some j → i = i')
+    (hdeg : d = none → ∀ kv ∈ items, kv.1.length ≤ cdeg) :
+    ∃ st, replay n o.deg o.mapped o.certs = .ok st ∧ st.D = o.D ∧ st.next = o.next :=
+  reduceDegreeC_refines h hkeys hlt hinj hdeg
+
+/-! ### The property in `M`'s original labels (with C14's bookkeeping invariant and C04's `convert_solution`) -/
+
+/-- **The bookkeeping the reduction relies on holds along every history of the repaired code** (C14,
+`Qv.C14.inv_history`): for a labelled model type after any edit history, the keys are duplicate-free, `mapping`
+is injective with images below `num_binary_variables`, defined on every label of the terms, inverted by
+`reverse_mapping` (which is injective on `0..n-1`), and the cached `degree` bounds the key lengths. -/
+theorem history_bookOK (κ : Kind) (ops : List Book.Op)
+    (hb : Book.hasBO (Book.run Book.Fix.fixed κ ops).kind = true) :
+    BookOK (Book.run Book.Fix.fixed κ ops).terms (Book.run Book.Fix.fixed κ ops).mapping (Book.run Book.Fix.fixed κ ops).reverse
+      (Book.run Book.Fix.fixed κ ops).numVars ((Book.run Book.Fix.fixed κ ops).degree.getD 0) := by
+  obtain ⟨i0, i1, i2, i3⟩ := Qv.C14.inv_history κ ops
+  exact bookOK_of_inv _ hb i0 i1 i2 i3
+
+/-- **First clause, original labels.**  For the reduction `o.D` that the implementation model produces from a
+model with terms `items` and bookkeeping `BookOK`: every boolean assignment `x` of `M`'s own labels has an
+extension `s` over `D`'s integer labels — `s[mapping[l]] = x[l]` for every label `l` of `M` — with
+`D(s) = M(x)`, whatever penalty is chosen. -/
+theorem original_extension {items : Poly} {m rev : Reduce.Mapping} {cdeg : Nat} {d : Option Nat} {lam : Lam}
+    {pairs : List Key} {o : Out} (hB : BookOK items m rev n cdeg)
+    (h : reduceDegreeC items m n cdeg d lam pairs = .ok o) (x : Var → Rat) (hx : IsBool x) :
+    ∃ s, IsBool s ∧ eval s o.D = eval x items ∧ ∀ kv ∈ items, ∀ l ∈ kv.1, s (Reduce.mfun m l) = x l := by
+  obtain ⟨st, f, hm, hr, hD, _⟩ := refines_of_bookOK hB h
+  obtain ⟨s, hs, hag, he⟩ := extension_with_equality hr (Reduce.pull rev x) (Reduce.pull_bool hx)
+  refine ⟨s, hs, ?_, ?_⟩
+  · rw [← hD, he, Reduce.eval_mapSelf _ hm, eval_nil, zero_add]
+    exact Reduce.eval_pull hB x
+  · intro kv hkv l hl
+    obtain ⟨j, hj⟩ := hB.dom kv hkv l hl
+    rw [mfun_of_lookup hj, hag j (hB.lt l j hj)]
+    simp only [Reduce.pull, hB.revOk l j hj]
+
+/-- **Second clause, original labels.**  With an admissible penalty, for every solution container `sol` of
+`D`'s variables whose own-form reading `s` is boolean, `D(s) ≥ M(M.convert_solution(sol))`:
+`a` is the dict `convert_solution` returns (C04's model `Qv.convertSolution`, on `reverse_mapping` and
+`n = num_binary_variables`), evaluated on `M`'s own labels. -/
+theorem original_never_undercuts {items : Poly} {m rev : Reduce.Mapping} {cdeg : Nat} {d : Option Nat}
+    {lam : Lam} {pairs : List Key} {o : Out} (hB : BookOK items m rev n cdeg)
+    (h : reduceDegreeC items m n cdeg d lam pairs = .ok o)
+    (hl : ∀ c ∈ o.certs, c.steps ≠ [] → |c.v| ≤ c.lam)
+    {sol : Sol} {isDict flag : Bool} {a : Assign}
+    (hc : convertSolution false rev n sol isDict flag = .ok a)
+    (hs : IsBool (ownSol false (isSolutionSpin (sol.map Prod.snd) flag) sol isDict)) :
+    eval a.fn items ≤ eval (ownSol false (isSolutionSpin (sol.map Prod.snd) flag) sol isDict) o.D := by
+  obtain ⟨st, f, hm, hr, hD, _⟩ := refines_of_bookOK hB h
+  have := never_undercuts_original hm hr hl _ hs
+  rw [hD] at this
+  rwa [eval_congr (convert_fn hB hc)]
+
+/-- **Both clauses for the default penalty, after any history of the repaired code.**  `M` is any labelled
+boolean model (`PUBO`/`PCBO`/`QUBO`) in any bookkeeping state the library can reach; `o.D` is what
+`to_pubo(deg)` / `to_qubo()` return with `lam=None`. -/
+theorem history_default_reduction (κ : Kind) (ops : List Book.Op)
+    (hb : Book.hasBO (Book.run Book.Fix.fixed κ ops).kind = true) {d : Option Nat} {pairs : List Key} {o : Out}
+    (h : reduceDegreeC (Book.run Book.Fix.fixed κ ops).terms (Book.run Book.Fix.fixed κ ops).mapping (Book.run Book.Fix.fixed κ ops).numVars
+      ((Book.run Book.Fix.fixed κ ops).degree.getD 0) d .default pairs = .ok o) :
+    (∀ x, IsBool x → ∃ s, IsBool s ∧ eval s o.D = eval x (Book.run Book.Fix.fixed κ ops).terms) ∧
+    (∀ (sol : Sol) (isDict flag : Bool) (a : Assign),
+      convertSolution false (Book.run Book.Fix.fixed κ ops).reverse (Book.run Book.Fix.fixed κ ops).numVars sol isDict flag = .ok a →
+      IsBool (ownSol false (isSolutionSpin (sol.map Prod.snd) flag) sol isDict) →
+      eval a.fn (Book.run Book.Fix.fixed κ ops).terms ≤
+        eval (ownSol false (isSolutionSpin (sol.map Prod.snd) flag) sol isDict) o.D) := by
+  have hB := history_bookOK κ ops hb
+  refine ⟨fun x hx => ?_, fun sol isDict flag a hc hs => ?_⟩
+  · obtain ⟨s, hs, he, _⟩ := original_extension hB h x hx
+    exact ⟨s, hs, he⟩
+  · exact original_never_undercuts hB h (impl_default_admissible h) hc hs
+
+/-- **First clause, original labels, spin source** (`PUSO`/`PCSO`: `D` is the reduction of
+`puso_to_pubo(self)`, which `_create_pubo` hands the PUSO's mapping and variable count).  Every spin assignment
+`z` of `M`'s own labels has a boolean extension `s` over `D`'s labels — `s[mapping[l]] = spin_to_boolean(z[l])`
+— with `D(s) = M(z)`, whatever penalty is chosen. -/
+theorem original_extension_spin {H : Poly} {m rev : Reduce.Mapping} {cdeg : Nat} {d : Option Nat} {lam : Lam}
+    {pairs : List Key} {o : Out} (hB : BookOK H m rev n cdeg)
+    (h : reduceDegreeC (Reduce.pusoToPubo H) m n (degree (Reduce.pusoToPubo H)) d lam pairs = .ok o)
+    (z : Var → Rat) (hz : IsSpin z) :
+    ∃ s, IsBool s ∧ eval s o.D = eval z H ∧ ∀ kv ∈ H, ∀ l ∈ kv.1, s (Reduce.mfun m l) = Reduce.s2b z l := by
+  have hB' := bookOK_pubo hB
+  obtain ⟨st, f, hm, hr, hD, _⟩ := refines_of_bookOK hB' h
+  obtain ⟨s, hs, hag, he⟩ := extension_with_equality hr (Reduce.pull rev (Reduce.s2b z))
+    (Reduce.pull_bool (Reduce.s2b_bool hz))
+  refine ⟨s, hs, ?_, ?_⟩
+  · rw [← hD, he, Reduce.eval_mapSelf _ hm, eval_nil, zero_add, Reduce.eval_pull hB',
+      Reduce.eval_pusoToPubo (Reduce.s2b_bool hz), Reduce.b2s_s2b]
+  · intro kv hkv l hl
+    obtain ⟨j, hj⟩ := hB.dom kv hkv l hl
+    rw [mfun_of_lookup hj, hag j (hB.lt l j hj)]
+    simp only [Reduce.pull, hB.revOk l j hj]
+
+/-- **Second clause, original labels, spin source.**  With an admissible penalty: for every solution container
+`sol` whose own-form (spin) reading `w` is a spin assignment, `D(spin_to_boolean(w)) ≥ M(M.convert_solution(sol))`
+— `spin_to_boolean(w)` is `sol` itself when `sol` is the boolean solution of `D` that `convert_solution`
+recognises as boolean. -/
+theorem original_never_undercuts_spin {H : Poly} {m rev : Reduce.Mapping} {cdeg : Nat} {d : Option Nat}
+    {lam : Lam} {pairs : List Key} {o : Out} (hB : BookOK H m rev n cdeg)
+    (h : reduceDegreeC (Reduce.pusoToPubo H) m n (degree (Reduce.pusoToPubo H)) d lam pairs = .ok o)
+    (hl : ∀ c ∈ o.certs, c.steps ≠ [] → |c.v| ≤ c.lam)
+    {sol : Sol} {isDict flag : Bool} {a : Assign}
+    (hc : convertSolution true rev n sol isDict flag = .ok a)
+    (hs : IsSpin (ownSol true (isSolutionSpin (sol.map Prod.snd) flag) sol isDict)) :
+    eval a.fn H ≤
+      eval (Reduce.s2b (ownSol true (isSolutionSpin (sol.map Prod.snd) flag) sol isDict)) o.D := by
+  obtain ⟨st, f, hm, hr, hD, _⟩ := refines_of_bookOK (bookOK_pubo hB) h
+  have := never_undercuts_original hm hr hl _ (Reduce.s2b_bool hs)
+  rw [hD, Reduce.eval_pusoToPubo (fun i => Reduce.s2b_bool hs _)] at this
+  rw [eval_congr (convert_fn hB hc)]
+  have e : Reduce.b2s (fun i => Reduce.s2b (ownSol true (isSolutionSpin (sol.map Prod.snd) flag) sol isDict)
+      (Reduce.mfun m i)) = fun i => ownSol true (isSolutionSpin (sol.map Prod.snd) flag) sol isDict
+      (Reduce.mfun m i) := by
+    funext i; simp only [Reduce.b2s, Reduce.s2b]; ring
+  rwa [e] at this
 
 /-! ### T1.7 — the spin routes, by composition with the boolean ↔ spin maps
 
@@ -150,52 +285,52 @@ the conversions `convert_solution` applies. -/
 /-- `to_puso`: the PUSO built from the reduced `D` takes at every spin assignment `z` the value of `D` at the
 boolean assignment `spin_to_boolean(z)` -/
 theorem puso_target_value (D : Poly) (z : Var → Rat) (hz : IsSpin z) :
-    eval z (puboToPuso D) = eval (s2b z) D ∧ IsBool (s2b z) :=
-  ⟨eval_puboToPuso hz D, s2b_bool hz⟩
+    eval z (Reduce.puboToPuso D) = eval (Reduce.s2b z) D ∧ IsBool (Reduce.s2b z) :=
+  ⟨Reduce.eval_puboToPuso hz D, Reduce.s2b_bool hz⟩
 
 /-- `to_quso`: the same for `qubo_to_quso`, which never raises on a reduced `D` of degree 2 -/
 theorem quso_target_value (D : Poly) (hD : ∀ kv ∈ D, kv.1.length ≤ 2) :
-    ∃ L, quboToQuso D [] = .ok L ∧ ∀ z, IsSpin z → eval z L = eval (s2b z) D := by
-  obtain ⟨L, hL⟩ := quboToQuso_ok hD []
+    ∃ L, Reduce.quboToQuso D [] = .ok L ∧ ∀ z, IsSpin z → eval z L = eval (Reduce.s2b z) D := by
+  obtain ⟨L, hL⟩ := Reduce.quboToQuso_ok hD []
   refine ⟨L, hL, fun z hz => ?_⟩
-  rw [eval_quboToQuso hz hL]; simp
+  rw [Reduce.eval_quboToQuso hz hL]; simp
 
 /-- `PUSO._create_pubo`: the intermediate PUBO takes at every boolean `x` the value of the spin model at
 `boolean_to_spin(x)`, and at `spin_to_boolean(w)` the value of the spin model at the spin assignment `w` -/
 theorem puso_source_value (H : Poly) (x : Var → Rat) (hx : IsBool x) :
-    eval x (pusoToPubo H) = eval (b2s x) H ∧ IsSpin (b2s x) :=
-  ⟨eval_pusoToPubo hx H, b2s_spin hx⟩
+    eval x (Reduce.pusoToPubo H) = eval (Reduce.b2s x) H ∧ IsSpin (Reduce.b2s x) :=
+  ⟨Reduce.eval_pusoToPubo hx H, Reduce.b2s_spin hx⟩
 
 /-- **T1.7 (composition, spin target).**  With admissible penalties the spin form of `D` never undercuts:
 for every spin assignment `z` of its variables, `to_puso(deg)(z) ≥ M(spin_to_boolean(z))`; and for every
 consistent `z` the two are equal, whatever the penalty. -/
 theorem spin_target_never_undercuts (h : replay n deg terms certs = .ok st)
     (hl : ∀ c ∈ certs, c.steps ≠ [] → |c.v| ≤ c.lam) (z : Var → Rat) (hz : IsSpin z) :
-    eval (s2b z) terms ≤ eval z (puboToPuso st.D) := by
-  rw [eval_puboToPuso hz]
-  exact never_undercuts h hl (s2b z) (s2b z) (s2b_bool hz) (fun _ _ => rfl)
+    eval (Reduce.s2b z) terms ≤ eval z (Reduce.puboToPuso st.D) := by
+  rw [Reduce.eval_puboToPuso hz]
+  exact never_undercuts h hl (Reduce.s2b z) (Reduce.s2b z) (Reduce.s2b_bool hz) (fun _ _ => rfl)
 
 theorem spin_target_exact (h : replay n deg terms certs = .ok st) (z : Var → Rat) (hz : IsSpin z)
-    (hc : ∀ e ∈ st.red, s2b z e.2 = s2b z e.1.1 * s2b z e.1.2) :
-    eval z (puboToPuso st.D) = eval (s2b z) terms := by
-  rw [eval_puboToPuso hz]
-  exact exact_on_consistent h (s2b z) (s2b_bool hz) hc
+    (hc : ∀ e ∈ st.red, Reduce.s2b z e.2 = Reduce.s2b z e.1.1 * Reduce.s2b z e.1.2) :
+    eval z (Reduce.puboToPuso st.D) = eval (Reduce.s2b z) terms := by
+  rw [Reduce.eval_puboToPuso hz]
+  exact exact_on_consistent h (Reduce.s2b z) (Reduce.s2b_bool hz) hc
 
 /-- **T1.7 (composition, spin source).**  For a spin model `H` reduced through `puso_to_pubo`: with admissible
 penalties, for every boolean assignment `s` of `D`'s variables, `D(s) ≥ H(boolean_to_spin(s))`, in `H`'s own
 labels through `mapping` (this is `H.convert_solution(s)`). -/
-theorem spin_source_never_undercuts {m : Mapping} {H : Poly} {f : Freq}
-    (hm : mapSelf m (pusoToPubo H) [] [] = .ok (terms, f)) (h : replay n deg terms certs = .ok st)
+theorem spin_source_never_undercuts {m : Reduce.Mapping} {H : Poly} {f : Freq}
+    (hm : Reduce.mapSelf m (Reduce.pusoToPubo H) [] [] = .ok (terms, f)) (h : replay n deg terms certs = .ok st)
     (hl : ∀ c ∈ certs, c.steps ≠ [] → |c.v| ≤ c.lam) (s : Var → Rat) (hs : IsBool s) :
-    eval (b2s (fun i => s (mfun m i))) H ≤ eval s st.D := by
+    eval (Reduce.b2s (fun i => s (Reduce.mfun m i))) H ≤ eval s st.D := by
   have := never_undercuts_original hm h hl s hs
-  rwa [eval_pusoToPubo (fun i => hs (mfun m i))] at this
+  rwa [Reduce.eval_pusoToPubo (fun i => hs (Reduce.mfun m i))] at this
 
 /-! ### Non-vacuity: a concrete accepted certificate with reuse, produced by the implementation model -/
 
 /-- `{(0,1,2,3): 2, (0,1,4): -1, (2,): 3}` reduced to degree 2 with the default penalty -/
 def exTerms : Poly := [([0, 1, 2, 3], 2), ([0, 1, 4], -1), ([2], 3)]
-def exMap : Mapping := [(0, 0), (1, 1), (2, 2), (3, 3), (4, 4)]
+def exMap : Reduce.Mapping := [(0, 0), (1, 1), (2, 2), (3, 3), (4, 4)]
 
 /-- the implementation model reduces it with three steps, one of them a reuse … -/
 example : (match reduceDegree exTerms exMap 5 (some 2) .default [] with
@@ -226,16 +361,38 @@ example : (replay 3 2 [([0, 1, 2], 1)]
 
 /-- the spin routes evaluate: `PUSO({(0,1,2): 1}).to_quso()` goes through `puso_to_pubo`, a reduction with
 one ancilla and `qubo_to_quso`; `to_puso(3)` takes the shortcut -/
-example : (match routeSpin .quso [([0, 1, 2], 1)] [(0, 0), (1, 1), (2, 2)] 3 none .default [] with
+example : (match Reduce.routeSpin .quso [([0, 1, 2], 1)] [(0, 0), (1, 1), (2, 2)] 3 none .default [] with
     | .ok out => decide (out.red.isSome ∧ out.res.length = 11)
     | .error _ => false) = true := by decide +kernel
 
-example : (match routeSpin .puso [([0, 1, 2], 1)] [(0, 0), (1, 1), (2, 2)] 3 (some 3) .default [] with
+example : (match Reduce.routeSpin .puso [([0, 1, 2], 1)] [(0, 0), (1, 1), (2, 2)] 3 (some 3) .default [] with
     | .ok out => decide (out.red.isNone ∧ out.res = [([0, 1, 2], 1)])
     | .error _ => false) = true := by decide +kernel
 
 example : IsSpin (fun i => if i = 0 then -1 else 1) := by
   intro i; by_cases h : i = 0 <;> simp [h]
+
+/-- a *stale* model of the repaired code (the term on labels 0,1,4 was cancelled: label 4 stays in the mapping
+and in `num_binary_variables`): `history_bookOK` applies, the reduction succeeds, and its first ancilla is 5 -/
+def exOps : List Book.Op :=
+  [.setitem [0, 1, 2, 3] 2, .setitem [0, 1, 4] (-1), .setitem [2] 3, .setitem [0, 1, 4] 0]
+
+example : Book.hasBO (Book.run Book.Fix.fixed .pubo exOps).kind = true := by decide +kernel
+example : Book.Fix.fixed.d1 = true := rfl
+example : (match reduceDegreeC (Book.run Book.Fix.fixed .pubo exOps).terms (Book.run Book.Fix.fixed .pubo exOps).mapping
+      (Book.run Book.Fix.fixed .pubo exOps).numVars ((Book.run Book.Fix.fixed .pubo exOps).degree.getD 0)
+      (some 2) .default [] with
+    | .ok o => decide ((Book.run Book.Fix.fixed .pubo exOps).numVars = 5 ∧ o.next = 7 ∧
+        o.certs.map (fun c => c.steps.map (fun s => (s.x, s.y, s.z, s.fresh))) =
+          [[(0, 1, 5, true), (2, 3, 6, true)], []])
+    | .error _ => false) = true := by decide +kernel
+
+/-- `convert_solution` on that model: `[1,1,0,1,0,1,0]` (a solution of `D` incl. two ancillas) is read on the
+labels `0..4` -/
+example : (match convertSolution false (Book.run Book.Fix.fixed .pubo exOps).reverse 5
+      [(0, 1), (1, 1), (2, 0), (3, 1), (4, 0), (5, 1), (6, 0)] false false with
+    | .ok a => decide (a = [(0, 1), (1, 1), (2, 0), (3, 1), (4, 0)])
+    | .error _ => false) = true := by decide +kernel
 
 example : IsBool (fun i => if i = 0 then 1 else 0) := by
   intro i; by_cases h : i = 0 <;> simp [h]
